@@ -155,6 +155,13 @@ for e in eqs:
         if k not in keys: keys.append(k)
 es = EqSystem(eqs, [Species.from_formula(k) for k in keys])
 xv = np.array([x[k] for k in keys], dtype=object)
+oth = ["AgCl(s) = Ag+ + Cl-"] if "NaCl(s)" in eq_strs[0] else ["Na+ + Cl- = NaCl(s)"]
+oe = [Equilibrium.from_string(s_ + "; 1") for s_ in oth]
+ok_ = []
+for e in oe:
+    for k in itertools.chain(e.reac, e.prod):
+        if k not in ok_: ok_.append(k)
+EqSystem(oe, [Species.from_formula(k) for k in ok_]).dissolved(np.array([Fraction(1), Fraction(2), Fraction(3)], dtype=object))   # history
 d = es.dissolved(xv)
 B, ck = es.composition_balance_vectors()
 bad = []
@@ -167,12 +174,13 @@ for row, k in zip(B, ck):
     if sum(b * v for b, v in zip(row, d)) != sum(b * v for b, v in zip(row, xv)): bad.append("dissolved() changes the total of key %%s" %% k)
 net = rxn.net_stoich(keys)
 ion = 1
+defined = all(not (nu < 0 and d[keys.index(k_)] == 0) for k_, nu in zip(keys, net) if k_ != solid)
 for k_, nu in zip(keys, net):
-    if k_ != solid: ion = ion * d[keys.index(k_)] ** nu
+    if k_ != solid and defined: ion = ion * d[keys.index(k_)] ** nu
 pv = np.array(list(%(p0)s) + list(Kv), dtype=object)   # initial concentrations (different from x), constants
 fw = es._fw_cond_factory(ri)(xv, pv)
 expect = (ion > Kv[ri] * Fraction(1 + 1e-14)) if net[si] < 0 else (ion * Fraction(1 + 1e-14) < Kv[ri])
-if bool(fw) != bool(expect): bad.append("fw_cond = %%s but quotient of the dissolved state %%s vs K %%s" %% (fw, ion, Kv[ri]))
+if defined and bool(fw) != bool(expect): bad.append("fw_cond = %%s but quotient of the dissolved state %%s vs K %%s" %% (fw, ion, Kv[ri]))
 for NS in (NumSysLin, NumSysLog):
     bw = es._bw_cond_factory(ri, NS.small)(xv, pv)
     if bool(bw) != (not (xv[si] < NS.small)): bad.append("bw_cond(%%s) = %%s for solid amount %%s" %% (NS.__name__, bw, xv[si]))
@@ -203,9 +211,13 @@ def task_precip(systems):
 
         pvec = [Real("p0_%d" % i) for i in range(n)] + list(Ks)  # the solver's parameter vector: initial concentrations, constants
 
+        other = build(["AgCl(s) = Ag+ + Cl-"] if "NaCl(s)" in eq_strs[0] else ["Na+ + Cl- = NaCl(s)"])[0]
+
         def fn():
             xv = np.array(x, dtype=object)
             pv = np.array(pvec, dtype=object)
+            # history: another precipitation system (other species order) was handled before in the same process
+            other.dissolved(np.array([Fraction(1), Fraction(2), Fraction(3)], dtype=object))
             d = es.dissolved(xv)
             fw = bool(es._fw_cond_factory(ri)(xv, pv))
             bw0 = bool(es._bw_cond_factory(ri, NumSysLin.small)(xv, pv))
